@@ -56,6 +56,11 @@ pub enum Cmd {
     /// wait for the k-th started background job of this process (modulo the number started)
     WaitPid(u8),
     WaitUnknown,
+    /// inside a subshell environment: `wait $pK` for a job started by the *enclosing* process
+    /// before the subshell was entered. "Subshells cannot wait for jobs in the parent shell
+    /// environment" (docs/src/builtins/wait.md): 127 whether that job has ended or not, whether
+    /// the parent has already collected its status or not.
+    WaitOuter(u8),
     /// `x=$( body )`
     CmdSub(Vec<Cmd>),
     Pipefail(bool),
@@ -147,17 +152,19 @@ fn sanitize(cmds: &mut Vec<Cmd>, depth: u32, top: bool) {
     }
 }
 
-fn render_list(cmds: &[Cmd], r: &mut Ren) {
+fn render_list(cmds: &[Cmd], r: &mut Ren, outer: u8) {
     let mut nbg = 0;
     for (i, c) in cmds.iter().enumerate() {
         if i > 0 {
             r.out.push_str("; ");
         }
-        render_cmd(c, r, &mut nbg);
+        render_cmd(c, r, &mut nbg, outer);
     }
 }
 
-fn render_cmd(c: &Cmd, r: &mut Ren, nbg: &mut u8) {
+/// `outer`: number of background jobs the enclosing process had started (variables `p0`..) when
+/// this list's process was created
+fn render_cmd(c: &Cmd, r: &mut Ren, nbg: &mut u8, outer: u8) {
     match c {
         Cmd::Mark(_) => {
             r.next_mark += 1;
@@ -166,7 +173,7 @@ fn render_cmd(c: &Cmd, r: &mut Ren, nbg: &mut u8) {
         Cmd::St(n) => r.out.push_str(&format!("st {n}")),
         Cmd::Sub(b) => {
             r.out.push_str("( ");
-            render_list(b, r);
+            render_list(b, r, *nbg);
             r.out.push_str(" )");
         }
         Cmd::Pipe(stages) => {
@@ -177,7 +184,7 @@ fn render_cmd(c: &Cmd, r: &mut Ren, nbg: &mut u8) {
                 match s {
                     Stage::List(b) => {
                         r.out.push_str("{ ");
-                        render_list(b, r);
+                        render_list(b, r, *nbg);
                         r.out.push_str("; }");
                     }
                     Stage::Cat => r.out.push_str("cat"),
@@ -191,7 +198,7 @@ fn render_cmd(c: &Cmd, r: &mut Ren, nbg: &mut u8) {
         }
         Cmd::Bg(b) => {
             r.out.push_str("{ ");
-            render_list(b, r);
+            render_list(b, r, *nbg);
             r.out.push_str(&format!("; }} & p{}=$!", *nbg));
             *nbg += 1;
         }
@@ -204,9 +211,18 @@ fn render_cmd(c: &Cmd, r: &mut Ren, nbg: &mut u8) {
             }
         }
         Cmd::WaitUnknown => r.out.push_str("wait 99999"),
+        Cmd::WaitOuter(k) => {
+            // `$pK` still names the enclosing process' job only while this process has not started
+            // jobs of its own
+            if outer == 0 || *nbg > 0 {
+                r.out.push_str("wait 99999");
+            } else {
+                r.out.push_str(&format!("wait $p{}", k % outer));
+            }
+        }
         Cmd::CmdSub(b) => {
             r.out.push_str("x=$( ");
-            render_list(b, r);
+            render_list(b, r, *nbg);
             r.out.push_str(" )");
         }
         Cmd::Pipefail(on) => r.out.push_str(if *on { "set -o pipefail" } else { "set +o pipefail" }),
@@ -225,7 +241,7 @@ fn render_cmd(c: &Cmd, r: &mut Ren, nbg: &mut u8) {
 
 pub fn render(prog: &[Cmd]) -> String {
     let mut r = Ren { out: String::new(), next_mark: 0, next_sink: 0 };
-    render_list(prog, &mut r);
+    render_list(prog, &mut r, 0);
     r.out.push('\n');
     r.out
 }
@@ -328,7 +344,7 @@ impl M {
                         }
                     }
                 }
-                Cmd::WaitUnknown => p.status = 127,
+                Cmd::WaitUnknown | Cmd::WaitOuter(_) => p.status = 127,
                 Cmd::Pipefail(on) => {
                     p.pipefail = *on;
                     p.status = 0;
@@ -506,6 +522,7 @@ fn arb_cmd() -> impl Strategy<Value = Cmd> {
         1 => Just(Cmd::Wait),
         2 => (0u8..3).prop_map(Cmd::WaitPid),
         1 => Just(Cmd::WaitUnknown),
+        2 => (0u8..4).prop_map(Cmd::WaitOuter),
         1 => any::<bool>().prop_map(Cmd::Pipefail),
         2 => (0u16..1500, 0u8..3, 0u8..4).prop_map(|(extra, cats, st)| Cmd::EarlyExit { extra, cats, st }),
         2 => (0u8..4, any::<bool>()).prop_map(|(st, last)| Cmd::StopStage { st, last }),
@@ -691,6 +708,183 @@ fn check_data(c: &DataCase) -> Outcome {
 
 pub static DATA: Driver<DataCase> = Driver::new("C14", "data", check_data);
 
+// ---- here-document bodies with every delimiter form and awkward lines ----
+
+/// (raw line as written in the script, what an unquoted-delimiter here-document makes of it;
+/// None = the line ends in a line continuation there)
+const HERE_LINES: &[(&str, Option<&str>)] = &[
+    ("plain text", Some("plain text")),
+    ("", Some("")),
+    ("\\", None),
+    ("\t\\", None),
+    ("a\\", None),
+    ("a\\\\", Some("a\\")),
+    ("\\$v", Some("$v")),
+    ("$v", Some("VAL")),
+    ("${v}x ${#v}", Some("VALx 3")),
+    ("\\`", Some("`")),
+    ("'q' \"dq\" \\\"e", Some("'q' \"dq\" \\\"e")),
+    ("$", Some("$")),
+    ("a\\b \\t", Some("a\\b \\t")),
+    ("\tx", Some("\tx")),
+    ("\t\ty\t", Some("\t\ty\t")),
+    (" \tz", Some(" \tz")),
+    ("$(echo cs)", Some("cs")),
+    ("$((1+2))", Some("3")),
+    ("EOFx", Some("EOFx")),
+    (" EOF", Some(" EOF")),
+    ("\\EOF", Some("\\EOF")),
+    ("#c", Some("#c")),
+];
+
+#[derive(Clone, Debug, PartialEq, Eq, Hash, Serialize, Deserialize)]
+pub struct HereCase {
+    /// indices into HERE_LINES
+    pub lines: Vec<u8>,
+    /// `<<-`
+    pub dash: bool,
+    /// 0: EOF (body is expanded), 1: 'EOF', 2: "EOF", 3: E\OF
+    pub quoted: u8,
+    /// a block of this many bytes of the position-dependent pattern is inserted after `at` lines
+    pub pad: u16,
+    pub at: u8,
+    /// descriptor the here-document is attached to (0, or 3 read through `<&3`)
+    pub fd3: bool,
+    pub chooser: Chooser,
+}
+
+fn strip_tabs(l: &str) -> &str {
+    l.trim_start_matches('\t')
+}
+
+fn check_here(c: &HereCase) -> Outcome {
+    let quoted = c.quoted % 4 != 0;
+    let mut raw: Vec<String> = vec![];
+    let mut want: Vec<String> = vec![];
+    let mut pending: Option<String> = None; // text before a line continuation
+    let mut lines: Vec<&(&str, Option<&str>)> = c.lines.iter().map(|i| &HERE_LINES[*i as usize % HERE_LINES.len()]).collect();
+    if lines.is_empty() {
+        lines.push(&HERE_LINES[0]);
+    }
+    let at = c.at as usize % (lines.len() + 1);
+    let mut has_lone_backslash = false;
+    for (k, (r, exp)) in lines.iter().enumerate() {
+        if k == at && c.pad > 0 {
+            if pending.is_some() {
+                return Outcome::skip("pattern block after a line continuation");
+            }
+            let block = String::from_utf8(probes::pattern(c.pad as usize, 1)).unwrap();
+            for l in block.lines() {
+                raw.push(l.to_string());
+                want.push(l.to_string());
+            }
+        }
+        raw.push(r.to_string());
+        has_lone_backslash |= strip_tabs(r) == "\\";
+        let shown: &str = if c.dash { strip_tabs(r) } else { r };
+        if quoted {
+            want.push(shown.to_string());
+        } else {
+            if pending.is_some() && c.dash && r.starts_with('\t') {
+                return Outcome::skip("tab stripping on a line that continues the previous one is not pinned down");
+            }
+            let head = pending.take().unwrap_or_default();
+            match exp {
+                Some(e) => {
+                    let e: &str = if c.dash && head.is_empty() { strip_tabs(e) } else { e };
+                    want.push(format!("{head}{e}"));
+                }
+                None => {
+                    // backslash-newline: the line goes on
+                    let body = &shown[..shown.len() - 1];
+                    pending = Some(format!("{head}{body}"));
+                }
+            }
+        }
+    }
+    if pending.is_some() {
+        return Outcome::skip("last body line ends in a line continuation (joins the delimiter line)");
+    }
+    let delim = match c.quoted % 4 {
+        0 => "EOF",
+        1 => "'EOF'",
+        2 => "\"EOF\"",
+        _ => "E\\OF",
+    };
+    let op = if c.dash { "<<-" } else { "<<" };
+    let mut body = String::new();
+    for l in &raw {
+        body.push_str(l);
+        body.push('\n');
+    }
+    let end = if c.dash { "\tEOF" } else { "EOF" };
+    let script = if c.fd3 {
+        format!("v=VAL\nsink s 3{op}{delim} <&3\n{body}{end}\nsnap end\n")
+    } else {
+        format!("v=VAL\nsink s {op}{delim}\n{body}{end}\nsnap end\n")
+    };
+    let mut expect = String::new();
+    for l in &want {
+        expect.push_str(l);
+        expect.push('\n');
+    }
+    let mut s = vsys::Setup::script(&script);
+    s.chooser = c.chooser.clone();
+    s.preempt = true;
+    s.max_steps = 400_000;
+    let r = vsys::run(&s);
+    let ctx = |m: String| format!("{m}\nscript:\n{script}stderr: {:?}", r.stderr);
+    if let Some(p) = &r.panic {
+        return Outcome::fail(ctx(format!("panic: {p}")));
+    }
+    if r.log.deadlock || !r.finished || r.log.step_limit_hit {
+        return Outcome::fail(ctx("the shell did not finish".into()));
+    }
+    if !r.stderr.is_empty() {
+        return Outcome::fail(ctx("unexpected diagnostic".into()));
+    }
+    let Some(snap) = r.snaps.iter().find(|s| s.tag == "end") else {
+        return Outcome::fail(ctx("script did not reach its end (a body line was taken for the delimiter, or the delimiter line for body)".into()));
+    };
+    if snap.status != 0 {
+        return Outcome::fail(ctx(format!("status {} after the here-document command", snap.status)));
+    }
+    let Some(got) = r.sinks.iter().find(|s| s.tag == "s") else {
+        return Outcome::fail(ctx("the command did not read its standard input to the end".into()));
+    };
+    if got.data != expect.as_bytes() {
+        let first = got.data.iter().zip(expect.as_bytes()).position(|(a, b)| a != b).unwrap_or(got.data.len().min(expect.len()));
+        return Outcome::fail(ctx(format!(
+            "here-document body: the command received {} bytes, expected {}; first difference at offset {first}: got {:?}, expected {:?}",
+            got.data.len(),
+            expect.len(),
+            String::from_utf8_lossy(&got.data[first.saturating_sub(10)..(first + 20).min(got.data.len())]),
+            &expect[first.saturating_sub(10).min(expect.len())..(first + 20).min(expect.len())]
+        )));
+    }
+    Outcome::pass(lines.len() >= 2)
+        .class(if quoted { "here:quoted-delimiter" } else { "here:expanded-body" })
+        .class_if(c.dash, "here:tab-stripping")
+        .class_if(c.pad as usize > 1024, "here:beyond-pipe-capacity")
+        .class_if(has_lone_backslash, "here:lone-backslash-line")
+        .class_if(c.fd3, "here:on-descriptor-3")
+}
+
+pub static HERE: Driver<HereCase> = Driver::new("C14", "heredoc", check_here);
+
+fn arb_here_case() -> impl Strategy<Value = HereCase> {
+    (
+        prop::collection::vec(0u8..HERE_LINES.len() as u8, 1..7),
+        any::<bool>(),
+        0u8..4,
+        prop_oneof![3 => Just(0u16), 2 => 1u16..600, 1 => 1000u16..4200],
+        any::<u8>(),
+        prop::bool::weighted(0.2),
+        prop_oneof![1 => Just(Chooser::Fifo), 2 => any::<u64>().prop_map(Chooser::Seeded)],
+    )
+        .prop_map(|(lines, dash, quoted, pad, at, fd3, chooser)| HereCase { lines, dash, quoted, pad, at, fd3, chooser })
+}
+
 const SIZES: [u16; 19] = [0, 1, 2, 511, 512, 513, 1023, 1024, 1025, 1535, 1536, 2047, 2048, 2049, 3071, 3072, 4095, 4096, 4097];
 
 fn shapes() -> Vec<Shape> {
@@ -727,6 +921,17 @@ pub fn run14(ctx: &Ctx, st: &mut Stats) {
         (0u16..4200, 0u8..4, prop::sample::select(shapes()), prop::collection::vec(any::<u8>(), 0..200), prop_oneof![3 => Just(0u8), 2 => 0u8..8], prop::bool::weighted(0.4))
             .prop_map(|(n, trailing, shape, v, pre, utf8)| DataCase { n, trailing, shape, chooser: Chooser::Scripted(v), pre, utf8 })
     });
+    // here-document bodies: delimiter forms x tab stripping x awkward lines
+    let nl = HERE_LINES.len() as u64;
+    let total = nl * nl * 2 * 4;
+    HERE.run_exhaustive(ctx, st, total, &|i| {
+        let quoted = (i % 4) as u8;
+        let dash = (i / 4) % 2 == 1;
+        let r = i / 8;
+        Some(HereCase { lines: vec![(r % nl) as u8, (r / nl) as u8], dash, quoted, pad: 0, at: 0, fd3: false, chooser: Chooser::Fifo })
+    });
+    let n = ctx.tier.pick(40_000, 1_500_000);
+    HERE.run_random(ctx, st, n, arb_here_case);
     // exhaustive DFS over schedules for a few small transfers
     let mut dfs_runs = 0u64;
     let mut dfs_exhausted = 0u64;
@@ -774,6 +979,7 @@ pub fn run14(ctx: &Ctx, st: &mut Stats) {
 pub fn replay14(driver: &str, case: &serde_json::Value) -> Result<(Outcome, Option<&'static str>), String> {
     match driver {
         "data" => DATA.replay_known(case),
+        "heredoc" => HERE.replay_known(case),
         _ => Err(format!("unknown driver {driver}")),
     }
 }
